@@ -3,7 +3,8 @@ from . import agentsim as S
 
 PROP  = 'C02'
 KNOBS = {'max_tasks': 14, 'cancel_prob': 0.2, 'tag_share': 0.3,
-         'fail_share': 0.1, 'partition_share': 0.08}
+         'fail_share': 0.1, 'partition_share': 0.08,
+         'deprecated_share': 0.15}
 gen, run = S.make_check(PROP, ['sched', 'sched', 'sched', 'full', 'nodelist', 'jsrun'], KNOBS,
                         lambda sc, res: res.get('n_grants', 0) >= 2)
 shrink = S.shrink
